@@ -192,7 +192,9 @@ func (f *funcObject) getOwnPropStr(name unistring.String) Value {
 }
 
 func (f *funcObject) setOwnStr(name unistring.String, val Value, throw bool) bool {
-	f._addProto(name)
+	// 'prototype' is created lazily but must keep its creation position (after 'length' and 'name')
+	// in the order of own keys, therefore it has to exist before any other property is added or removed
+	f._addProto("prototype")
 	return f.baseObject.setOwnStr(name, val, throw)
 }
 
@@ -201,12 +203,12 @@ func (f *funcObject) setForeignStr(name unistring.String, val, receiver Value, t
 }
 
 func (f *funcObject) defineOwnPropertyStr(name unistring.String, descr PropertyDescriptor, throw bool) bool {
-	f._addProto(name)
+	f._addProto("prototype")
 	return f.baseObject.defineOwnPropertyStr(name, descr, throw)
 }
 
 func (f *funcObject) deleteStr(name unistring.String, throw bool) bool {
-	f._addProto(name)
+	f._addProto("prototype")
 	return f.baseObject.deleteStr(name, throw)
 }
 
@@ -228,12 +230,13 @@ func (f *funcObject) hasOwnPropertyStr(name unistring.String) bool {
 }
 
 func (f *funcObject) stringKeys(all bool, accum []Value) []Value {
+	accum = f.baseFuncObject.stringKeys(all, accum)
 	if all {
 		if _, exists := f.values["prototype"]; !exists {
 			accum = append(accum, asciiString("prototype"))
 		}
 	}
-	return f.baseFuncObject.stringKeys(all, accum)
+	return accum
 }
 
 func (f *funcObject) iterateStringKeys() iterNextFunc {
